@@ -76,9 +76,10 @@ Section Complete.
 
   Lemma QK_proc_sync i m s min_ nw s' :
     okmK i m -> subscribed s m -> sc_eph (cfg s) = 0 ->
-    process_msg Repaired s (w_mid m) (mk_stored i m) (topic_of_wire (w_wtopic m)) (w_topics m) min_ = Some (nw, s') ->
+    process_msg Repaired s (w_mid m) (mk_stored i m) (heard_topic Repaired (sc_mode (cfg s)) (topic_of_wire (w_wtopic m))) (w_topics m) min_ = Some (nw, s') ->
     QK min_ i s -> QK (w_mid m) i s'.
   Proof.
+    set (tp := heard_topic Repaired (sc_mode (cfg s)) (topic_of_wire (w_wtopic m))).
     unfold okmK, QK. intros Hok _ Hsync Ep HQ.
     destruct (process_msg_frame _ _ _ _ _ _ _ _ _ (fun _ => True) Ep) as (Pc & _).
     unfold process_msg in Ep. destruct (w_mid m <? min_); [discriminate|].
@@ -87,21 +88,21 @@ Section Complete.
     - destruct (w_mid m =? min_) eqn:Ee.
       + apply Z.eqb_eq in Ee. inversion Ep; subst nw s'; clear Ep.
         assert (Hd : In t (map fst d)) by (apply (HQ Hsync d eq_refl t); split; [rewrite <- Ee, <- Hok; exact Hin|exact Hm]).
-        destruct (topic_of_wire (w_wtopic m)); cbn in Ed'; [rewrite Er in Ed'|]; inversion Ed'; subst; [exact Hd|apply dset_keys; exact Hd].
+        destruct tp; cbn in Ed'; [rewrite Er in Ed'|]; inversion Ed'; subst; [exact Hd|apply dset_keys; exact Hd].
       + inversion Ep; subst nw s'; clear Ep. cbn in Ed'. unfold src_new_recv in Ed'.
         destruct (sc_mode (cfg s)) as [| |tm] eqn:Em; cbn [recvd_new] in Ed'.
         * inversion Ed'; subst. apply init_recvd_keys; [exact Hin|intros _; exact Hm].
         * inversion Ed'; subst. apply init_recvd_keys; [exact Hin|discriminate].
         * assert (K : In t (map fst (fold_left (fun d0 (sd : str * str) => dset (fst sd) (@None stored) d0) tm [])))
             by (eapply (recvd_new_keys tm t); [reflexivity|exact Hm]).
-          destruct (topic_of_wire (w_wtopic m)); inversion Ed'; subst; [exact K|apply dset_keys; exact K].
+          match type of Ed' with context [match ?x with [] => _ | _ :: _ => _ end] => destruct x end; inversion Ed'; subst; [exact K|apply dset_keys; exact K].
     - inversion Ep; subst nw s'; clear Ep. cbn in Ed'. inversion Ed'; subst.
       apply init_recvd_keys; [exact Hin|]. intro Em. rewrite Em in Hm. exact Hm.
   Qed.
 
   Lemma QK_proc_eph i m s cur nw s' :
     okmK i m -> subscribed s m -> sc_eph (cfg s) <> 0 ->
-    process_msg Repaired s (w_mid m) (mk_stored i m) (topic_of_wire (w_wtopic m)) (w_topics m) (min_recv s) = Some (nw, s') ->
+    process_msg Repaired s (w_mid m) (mk_stored i m) (heard_topic Repaired (sc_mode (cfg s)) (topic_of_wire (w_wtopic m))) (w_topics m) (min_recv s) = Some (nw, s') ->
     QK cur i s -> QK cur i s'.
   Proof.
     unfold QK. intros _ _ Hne Ep _.
